@@ -422,3 +422,24 @@ package statsd
 //@   requires th != nil && th.handler != nil && e != nil && nodupTags(th.tags) && tagsApart(e.Tags, th.tags)
 //@   callsite DispatchEvent requires e == arg1 && nodupTags(e.Tags) && (forall j int :: off(th.tags) <= j && j < off(th.tags) + len(th.tags) ==> inTags(at(th.tags, j), e.Tags))
 //@   modifies everything
+
+// ---- handler_http_forwarder_v2.go (C20): the flush notification follows the delivery attempt --------------
+// The goroutine that posts one consolidated map: exactly one post, then exactly one notification, then the
+// request slot is released.
+//@ func (*HttpForwarderHandlerV2).Run$1$1$1
+//@   requires hfh != nil
+//@   callsite notifyFlush requires calls(postMetrics) == 1 && calls(notifyFlush) == 0
+//@   callsite postMetrics requires calls(postMetrics) == 0 && calls(notifyFlush) == 0 && metricMap == arg1
+//@   callsite releaseSem requires calls(notifyFlush) == 1
+//@   ensures  calls(postMetrics) == 1 && calls(notifyFlush) == 1 && calls(releaseSem) == 1
+//@   modifies everything
+//@ func (*HttpForwarderHandlerV2).postMetrics
+//@   trusted
+//@   modifies everything
+//@ func (*HttpForwarderHandlerV2).notifyFlush
+//@   requires hfh != nil
+//@   ensures  hfh.flushCoordinator != nil ==> calls(NotifyFlush) == old(calls(NotifyFlush)) + 1
+//@   modifies everything
+//@ func (*HttpForwarderHandlerV2).releaseSem
+//@   trusted
+//@   modifies everything
